@@ -216,6 +216,9 @@ def _job_wrapper(a):
     signal.signal(signal.SIGALRM, on_alarm); signal.alarm(int(budget))
     try:
         fn(res, *args)
+    except GarbageUse as e:
+        res.obs.append(Ob('%s%r: no index or address is computed from heap storage the program never wrote (operator new / malloc return arbitrary bytes)' % (fn.__name__, tuple(args)), 'violated', key='uninitialised-heap-use',
+                          detail=str(e), cex={'replay': 'structural', 'what': str(e)}))
     except NativeCrash as e:
         # not a machinery error: the real code, linked into the harness and driven with the harness' (legal) scenario, crashed natively
         res.obs.append(Ob('%s%r: the real code runs the scenario natively (world construction and reference calls of the harness) without dying of a signal' % (fn.__name__, tuple(args)), 'violated', key='native-crash',
@@ -269,7 +272,7 @@ class Check:
                         try: os.unlink(o.cex['cmd'][2] + ext)
                         except OSError: pass
                 except Exception as e: rep, txt = False, 'replay crashed: %r' % e
-            elif self.replayer and o.cex is not None and isinstance(o.cex, dict) and o.cex.get('replay'):
+            elif self.replayer and o.cex is not None and isinstance(o.cex, dict) and o.cex.get('replay') and o.cex.get('replay') != 'structural':
                 try: rep, txt = self.replayer(path, o.cex)
                 except Exception as e: rep, txt = False, 'replay crashed: %r' % e
             o.replay = txt
